@@ -68,6 +68,17 @@ Theorem C20_303_bodyless_get : forall maxr url0 host0 ok0 uinfo0 r0 chain hops r
 Proof. intros * Hrun hp Hin Hv. exact (proj1 (rewrites_ok _ _ _ _ _ _ _ _ _ Hrun hp Hin) Hv). Qed.
 Print Assumptions C20_303_bodyless_get.
 
+(* ... whatever the body SOURCE was: the state the loop leaves after a followed 303 has an empty body buffer, no body stream,
+   no bodyRaw, no multipart form, empty post args (and parsedPostArgs reset), no Content-Length / Content-Type field and no
+   Transfer-Encoding header; and Request.Write's fallback chain (bodyBytes -> multipart form -> postArgs) then finds nothing *)
+Theorem C20_303_clears_every_body_source : forall r, after303 (r_method r) (rewrite_req StatusSeeOther r).
+Proof. exact rewrite_303. Qed.
+Print Assumptions C20_303_clears_every_body_source.
+
+Theorem C20_after_303_nothing_to_send : forall prev r r1 s, after303 prev r -> write None r = (r1, s) -> sent_after303 prev s.
+Proof. exact write_after303. Qed.
+Print Assumptions C20_after_303_nothing_to_send.
+
 (* (4) POST becomes GET on 301/302 *)
 Theorem C20_post_to_get_301_302 : forall maxr url0 host0 ok0 uinfo0 r0 chain hops res,
   run maxr url0 host0 ok0 uinfo0 r0 chain = (hops, res) ->
@@ -88,7 +99,7 @@ Print Assumptions C20_ghost_fields_meaning.
 (* ---- non-vacuity ---------------------------------------------------------------------------------------------------------------- *)
 (* leave the domain (stripped), come back (still stripped), go to a subdomain *)
 Example C20_ex_leave_and_return :
-  let r0 := mkReq MethodPost [(HeaderAuthorization, s2b "secret"); (HeaderCookie, s2b "sid=1"); (s2b "X-Harmless", s2b "1")] false true 0%Z false 3%Z None in
+  let r0 := mkReqB MethodPost [(HeaderAuthorization, s2b "secret"); (HeaderCookie, s2b "sid=1"); (s2b "X-Harmless", s2b "1")] false true 0%Z false 3%Z None in
   let chain := [mkAns 302 (s2b "http://sub.a.com/") (s2b "sub.a.com") true; mkAns 307 (s2b "http://evil.com/") (s2b "evil.com") true;
                 mkAns 303 (s2b "http://a.com/") (s2b "a.com") true] in
   map (fun hp => (h_host hp, s_method (h_sent hp), length (s_sens (h_sent hp)), s_body (h_sent hp), s_cl (h_sent hp)))
@@ -101,15 +112,29 @@ Proof. vm_compute. reflexivity. Qed.
 Example C20_ex_repaired :
   isDomainOrSubdomainBytes (h "61c5bf6b2e636f6d") (s2b "ask.com") = false /\
   isDomainOrSubdomainBytes (h "61732e4b2e636f6d") (s2b "as.k.com") = true /\
-  (let r0 := mkReq MethodGet [(s2b "authorization", s2b "secret"); (s2b "COOKIE2", s2b "x")] true false 0%Z false 0%Z None in
+  (let r0 := mkReqB MethodGet [(s2b "authorization", s2b "secret"); (s2b "COOKIE2", s2b "x")] true false 0%Z false 0%Z None in
    map (fun hp => length (s_sens (h_sent hp)))
        (fst (run 5 (s2b "http://a.com/") (s2b "a.com") true None r0 [mkAns 302 (s2b "http://evil.com/x") (s2b "evil.com") true]))
    = [2%nat; 0%nat]) /\
-  (let r0 := mkReq MethodGet [(s2b "authorization", s2b "secret")] false false 0%Z false 0%Z None in
+  (let r0 := mkReqB MethodGet [(s2b "authorization", s2b "secret")] false false 0%Z false 0%Z None in
    map (fun hp => length (s_sens (h_sent hp)))
        (fst (run 5 (s2b "http://a.com/") (s2b "a.com") true None r0 [mkAns 302 (s2b "http://evil.com/x") (s2b "evil.com") true]))
    = [1%nat; 0%nat]).
 Proof. exact repaired_examples. Qed.
+
+(* every body source at once (buffer empty so that the multipart form and then the post args would be used): POST, 303 *)
+Example C20_ex_303_all_sources :
+  let r0 := mkReq MethodPost [] false true 0%Z false 0%Z None (Some 9%Z) (Some 120%Z) 27%Z true in
+  map (fun hp => (s_method (h_sent hp), s_body (h_sent hp), s_cl (h_sent hp), s_ct (h_sent hp)))
+      (fst (run 5 (s2b "http://a.com/") (s2b "a.com") true None r0
+                [mkAns 303 (s2b "/landing") (s2b "a.com") true]))
+  = [(s2b "POST", 120%Z, true, true); (s2b "GET", 0%Z, false, false)]
+  /\ (* post args alone are sent as the body when every other source is empty (Write's last fallback) *)
+  map (fun hp => (s_method (h_sent hp), s_body (h_sent hp)))
+      (fst (run 5 (s2b "http://a.com/") (s2b "a.com") true None (mkReq MethodPost [] false true 0%Z false 0%Z None None None 27%Z true)
+                [mkAns 307 (s2b "/again") (s2b "a.com") true; mkAns 303 (s2b "/landing") (s2b "a.com") true]))
+  = [(s2b "POST", 27%Z); (s2b "POST", 27%Z); (s2b "GET", 0%Z)].
+Proof. vm_compute. split; reflexivity. Qed.
 
 Example C20_ex_lookalikes :
   map (fun s => isDomainOrSubdomainBytes (s2b s) (s2b "a.com"))
@@ -120,7 +145,7 @@ Proof. vm_compute. split; reflexivity. Qed.
 
 Example C20_ex_budget :
   let ch := repeat (mkAns 302 (s2b "/n") (s2b "a.com") true) 18 in
-  let r0 := mkReq MethodGet [] false false 0%Z false 0%Z None in
+  let r0 := mkReqB MethodGet [] false false 0%Z false 0%Z None in
   (length (fst (run defaultMaxRedirectsCount (s2b "http://a.com/") (s2b "a.com") true None r0 ch)) = 17%nat) /\
   snd (run defaultMaxRedirectsCount (s2b "http://a.com/") (s2b "a.com") true None r0 ch) = RTooMany /\
   snd (run 0 (s2b "http://a.com/") (s2b "a.com") true None r0 ch) = RTooMany.
